@@ -164,6 +164,105 @@ package roaring
 //@   ensures result == iv.last - iv.start + 1
 //@   modifies nothing
 
+// ---- maximum ------------------------------------------------------------------
+
+//@ contract (*Container).arrayMax props C01
+//@   requires wfArr(c) && len(c.$arr) > 0
+//@   ensures mem(c, result) && (forall v :: mem(c, v) ==> v <= result)
+//@   modifies nothing
+//@ contract (*Container).runMax props C01
+//@   requires wfRuns(c)
+//@   ensures len(c.$runs) > 0 ==> mem(c, result) && (forall v :: mem(c, v) ==> v <= result)
+//@   ensures len(c.$runs) == 0 ==> result == 0
+//@   modifies nothing
+//@ contract (*Container).bitmapMax props C01
+//@   requires wfBm(c)
+//@   ensures (exists v :: 0 <= v && v < 65536 && mem(c, v)) ==> mem(c, result)
+//@   ensures forall v :: 0 <= v && v < 65536 && mem(c, v) ==> v <= result
+//@   modifies nothing
+//@   loop 1 invariant bitmap == c.$bm && 0 <= i && i <= 1024
+//@   loop 1 invariant forall k :: i <= k && k < 1024 ==> bitmap[k] == 0
+//@   loop 1 decreases i
+
+// ---- the cardinality field ------------------------------------------------------
+// sumPop: sum of word popcounts (normal-form counter of bitmap containers, L3).
+//@ rec sumPop(w seq[uint64], lo int, hi int) int = hi <= lo ? 0 : sumPop(w, lo, hi - 1) + popcount(w[hi-1])
+//@ spec cardIs(c *Container, n int) = (c.typeID == 1 ==> n == len(c.$arr)) && (c.typeID == 3 ==> n == cntRunsOf(c.$runs, 0, 65536)) && (c.typeID == 2 ==> n == sumPop(seq(c.$bm), c.$bm.off, c.$bm.off + 1024))
+//@ spec wfN(c *Container) = cardIs(c, c.n)
+//@ spec wf(c *Container) = wfT(c) && wfN(c)
+
+//@ contract (*Container).countRange props C01
+//@   requires c == nil || wfT(c)
+//@   requires 0 <= start && start <= end && end <= 65536
+//@   ensures c == nil ==> n == 0
+//@   ensures isArr(c) ==> cntArrIs(c.$arr, start, end, n)
+//@   ensures isRun(c) ==> n == cntRunsOf(c.$runs, start, end)
+//@   modifies nothing
+
+//@ contract (*Container).bitmapRepair props C01
+//@   requires wfBm(c)
+//@   ensures c.n == sumPop(seq(c.$bm), c.$bm.off, c.$bm.off + 1024)
+//@   modifies c.n
+//@   loop 1 invariant 0 <= i && i <= 1024 && i % 4 == 0 && len(bitmap) == 1024 && bitmap.ref == c.$bm.ref && bitmap.off == c.$bm.off
+//@   loop 1 invariant n == sumPop(seq(bitmap), bitmap.off, bitmap.off + i) && 0 <= n && n <= 64 * i
+//@   loop 1 decreases 1024 - i
+
+// ---- single-bit mutation of bitmap containers -----------------------------------
+
+//@ contract (*Container).Thaw trusted props C01,C03
+//@   requires c != nil
+//@   ensures result != nil && (result == c || fresh(result))
+//@   ensures (old(c.flags) & 3) == 0 ==> result == c
+//@   ensures (old(c.flags) & 2) != 0 ==> fresh(result)
+//@   ensures (result.flags & 3) == 0
+//@   ensures result.typeID == old(c.typeID) && result.n == old(c.n)
+//@   ensures len(result.$arr) == old(len(c.$arr)) && (forall i :: 0 <= i && i < len(result.$arr) ==> result.$arr[i] == old(c.$arr[i]))
+//@   ensures len(result.$runs) == old(len(c.$runs)) && (forall i :: 0 <= i && i < len(result.$runs) ==> result.$runs[i] == old(c.$runs[i]))
+//@   ensures len(result.$bm) == old(len(c.$bm)) && (forall i :: 0 <= i && i < len(result.$bm) ==> result.$bm[i] == old(c.$bm[i]))
+//@   ensures result == c ==> result.$arr == old(c.$arr) && result.$runs == old(c.$runs) && result.$bm == old(c.$bm)
+//@   ensures result != c ==> fresh(result.$arr) && fresh(result.$runs) && fresh(result.$bm)
+//@   modifies c.flags, c.pointer, c.len, c.cap, c.data, c.$arr, c.$runs, c.$bm
+
+//@ contract (*Container).bitmapAdd props C01,C03
+//@   requires c != nil && wfBm(c) && c.n < 65536
+//@   ensures result0 != nil && wfBm(result0)
+//@   ensures result1 <==> !old(mem(c, v))
+//@   ensures forall x :: 0 <= x && x < 65536 ==> (mem(result0, x) <==> (x == v || old(mem(c, x))))
+//@   ensures result1 ==> result0.n == old(c.n) + 1
+//@   ensures !result1 ==> result0 == c && result0.n == old(c.n)
+//@   ensures (old(c.flags) & 2) != 0 && result1 ==> fresh(result0)
+
+// ---- constructors (inlined: alloc + setArray/setRuns) ------------------------
+
+// ---- set operations on array containers --------------------------------------
+
+//@ contract intersectArrayArray props C01
+//@   requires wfArr(a) && wfArr(b)
+//@   ensures wfArr(result) && fresh(result)
+//@   ensures forall k :: 0 <= k && k < len(result.$arr) ==> memArr(a.$arr, result.$arr[k]) && memArr(b.$arr, result.$arr[k])
+//@   ensures forall v :: (mem(a, v) && mem(b, v)) ==> mem(result, v)
+//@   modifies nothing
+//@   loop 1 invariant aa == a.$arr && ab == b.$arr && na == len(aa) && nb == len(ab) && 0 <= i && i <= na && 0 <= j && j <= nb
+//@   loop 1 invariant fresh(output) && len(output) <= i && len(output) <= j && cap(output) == na && output.off == 0
+//@   loop 1 invariant forall k :: 0 <= k && k < len(output) ==> (exists p :: 0 <= p && p < i && aa[p] == output[k]) && (exists q :: 0 <= q && q < j && ab[q] == output[k])
+//@   loop 1 invariant forall k, l :: 0 <= k && k < l && l < len(output) ==> output[k] < output[l]
+//@   loop 1 invariant forall k :: 0 <= k && k < len(output) ==> (i < na ==> output[k] < aa[i]) && (j < nb ==> output[k] < ab[j])
+//@   loop 1 invariant forall p, q :: 0 <= p && p < na && 0 <= q && q < nb && aa[p] == ab[q] && (p < i || q < j) ==> (exists k :: 0 <= k && k < len(output) && output[k] == aa[p])
+//@   loop 1 decreases (na - i) + (nb - j)
+
+// arrayCountRange: in a strictly sorted array the elements of [start,end) form
+// one index window [lo,hi); the count is its width (bridge lemma L1).
+//@ spec cntArrIs(a []uint16, s int, e int, n int) = exists lo, hi :: 0 <= lo && lo <= hi && hi <= len(a) && n == hi - lo && (forall k :: 0 <= k && k < lo ==> a[k] < s) && (forall k :: lo <= k && k < hi ==> s <= a[k] && a[k] < e) && (forall k :: hi <= k && k < len(a) ==> a[k] >= e)
+//@ contract (*Container).arrayCountRange props C01
+//@   requires wfArr(c) && 0 <= start && start <= end && end <= 65536
+//@   ensures cntArrIs(c.$arr, start, end, n)
+//@   modifies nothing
+//@   loop 1 invariant array == c.$arr && 0 <= i && i <= len(array) && 0 <= n && n <= i
+//@   loop 1 invariant forall k :: 0 <= k && k < i - n ==> array[k] < start
+//@   loop 1 invariant forall k :: i - n <= k && k < i ==> start <= array[k] && array[k] < end
+//@   loop 1 invariant forall k :: i <= k && k < len(array) ==> array[k] >= start
+//@   loop 1 decreases len(array) - i
+
 //@ contract (*Container).runCountRange props C01
 //@   requires wfRuns(c) && 0 <= start && start <= end && end <= 65536
 //@   ensures n == cntRunsOf(c.$runs, start, end)
